@@ -14,7 +14,7 @@ RULE = ('family = source of length n in 2b+4..24 -> map(u0) [-> map(u1)] -> pref
         '(pipeline, schedule signature). Every 200th family is systematic: buffer 1-2, '
         'n = 2b+4, the non-preemptive baseline schedule and ALL schedules with exactly one '
         'forced context switch.')
-PROBES = ['all_single_preemption_schedules_of_a_small_workload', 'pull_bound_b_plus_2_reached', 'start_bound_b_reached']
+PROBES = ['dropped_example_in_read_ahead_accounting', 'all_single_preemption_schedules_of_a_small_workload', 'pull_bound_b_plus_2_reached', 'start_bound_b_reached']
 BUDGET = {
     'quick': {'families': 2800, 'wall_cap': 420, 'shrink_s': 15},
     'thorough': {'families': 30000, 'wall_cap': 5400, 'shrink_s': 40},
@@ -48,7 +48,8 @@ def gen(rng, tier, index):
     if index % 200 == 199:
         return gen_systematic(rng)
     backends = ('t',) if rng.random() < 0.6 else tuple(pargen.BACKENDS_POOL)
-    par = pargen.gen_par_stage(rng, backends=backends, max_extra_b=3, single_p=0.4)
+    par = pargen.gen_par_stage(rng, backends=backends, max_extra_b=3, single_p=0.4,
+                               catch_p=0.2)
     b = par['b']
     n = rng.randrange(2 * b + 4, 25)
     stages = [{'op': 'map', 'id': 'u0'}]
@@ -60,11 +61,23 @@ def gen(rng, tier, index):
     desc = {'source': {'kind': rng.choice(['list', 'dict']), 'n': n},
             'stages': stages}
     assert pargen.abs_eval(desc) is not None
+    faults = []
+    if par.get('catch'):
+        # the stage drops failing examples: some examples fail with a selected type
+        spec = par['catch']
+        kinds = {True: ['filter', 'filter_sub'], 'value': ['value'], 'filter_sub': ['filter_sub']}.get(
+            spec if not isinstance(spec, list) else None, None) or list(spec)
+        faults = [{'stage': 'u0', 'pos': p_, 'exc': rng.choice(kinds)}
+                  for p_ in range(n) if rng.random() < 0.3]
+    # key iteration over a parallel map sends (key, example) pairs to the workers
+    items = desc['source']['kind'] == 'dict' and par['op'] == 'parmap' and \
+        stages[-1] is par and rng.random() < 0.5
     cases = []
     for j in range(4):
         sched = dict(rng.choice(POLICIES), seed=rng.randrange(1 << 30))
         cases.append({
-            'desc': desc, 'sched': sched, 'epochs': rng.choice([1, 1, 2]),
+            'desc': desc, 'sched': sched, 'epochs': rng.choice([1, 2, 2] if faults else [1, 1, 2]),
+            'faults': faults, 'items': bool(items),
             'cost_seed': rng.randrange(1000), 'think_seed': rng.randrange(1000),
             'think_max': rng.choice([0, 5, 40]),
             'trace': ['parallel_utils', 'core'] if rng.random() < 0.2
